@@ -310,4 +310,42 @@ def HistCountsNotCumulativeDoc (P : Params) (ls : List Line) : Prop :=
   HistPairDoc ls (fun n s1 s2 => ∃ b1 b2 g1 g2 v1 v2, IsBucket P n s1 b1 g1 ∧ IsBucket P n s2 b2 g2 ∧
     SameHistGroup P g1 g2 s1.ts s2.ts ∧ s1.value = some v1 ∧ s2.value = some v2 ∧ P.lt v2 v1 = true)
 
+/-! ### the two rules that `do_checks` enforces when a group is over, on the document's lines
+
+`_check_histogram` runs when the family is CLOSED — by a metadata line, by `# EOF`, by a sample of another family, or by
+the end of the input — and, inside it, `do_checks` runs when the group changes.  Both closing events are explicit
+below.  As above, the group's lines must be new series (a repeat at an unchanged timestamp is dropped beforehand). -/
+
+/-- what follows closes the family block: nothing (the input ends), a line that is not a sample line (`# TYPE/HELP/UNIT`
+of any family, `# EOF`, a blank or malformed line), or a sample line of another family -/
+def FamilyCloses (n t : Str) (rest : List Line) : Prop :=
+  rest = [] ∨ ∃ l tl, rest = l :: tl ∧ ((∀ nh plain, l ≠ .sample nh plain) ∨ ∃ s, l = smp s ∧ s.name ∉ familyNames n t)
+
+/-- `# TYPE n t` (histogram or gaugehistogram), lines of that family, then consecutive sample lines `grp` of the family
+that are new series, then `rest`; `bad` relates them -/
+def HistGroupDoc (ls : List Line) (bad : Str → Str → List OSample → List Line → Prop) : Prop :=
+  ∃ pre n t mid grp rest, ls = pre ++ .metadata cs!"TYPE" n t :: (mid ++ grp.map smp ++ rest) ∧
+    (t = cs!"histogram" ∨ t = cs!"gaugehistogram") ∧ (∀ l ∈ mid, InFam n t l) ∧ (∀ s ∈ grp, s.name ∈ familyNames n t) ∧
+    (grp.map seriesOf).Nodup ∧ (∀ nh s, Line.sample nh (.ok s) ∈ mid → ∀ x ∈ grp, seriesOf s ≠ seriesOf x) ∧
+    bad n t grp rest
+
+/-- the lines `body` of a group are over: they are all of `grp` and the family block is closed by `rest`; or `grp` is
+`body` and one more sample line of the family, of another group or timestamp (then `rest` is arbitrary) -/
+def GroupClosed (P : Params) (n t : Str) (g : Labels) (ts : Option OTs) (body grp : List OSample) (rest : List Line) : Prop :=
+  (grp = body ∧ FamilyCloses n t rest) ∨ (∃ s', grp = body ++ [s'] ∧ GroupEnds P n g ts [s'])
+
+/-- a group whose last bucket line is not the `+Inf` bucket, in the document: the bucket line `sb`, the group's other
+lines, and the closing event -/
+def HistNoInfDoc (P : Params) (ls : List Line) : Prop :=
+  HistGroupDoc ls (fun n t grp rest => ∃ sb tail b g, IsBucket P n sb b g ∧ P.isPosInf b = false ∧
+    (∀ s ∈ tail, InHistGroup n g sb.ts s) ∧ tsEq P sb.ts sb.ts = true ∧ GroupClosed P n t g sb.ts (sb :: tail) grp rest)
+
+/-- a group whose `_count` / `_gcount` differs from the count of its last bucket line, in the document -/
+def HistCountNeInfDoc (P : Params) (ls : List Line) : Prop :=
+  HistGroupDoc ls (fun n t grp rest => ∃ sb t1 sc t2 b g v c, IsBucket P n sb b g ∧
+    (∀ s ∈ t1, InHistGroup n g sb.ts s) ∧ IsCountLine n sc ∧ InHistGroup n g sb.ts sc ∧
+    (∀ s ∈ t2, InHistGroup n g sb.ts s ∧ NotCountLine n s) ∧
+    sb.value = some v ∧ sc.value = some c ∧ P.eq v c = false ∧ tsEq P sb.ts sb.ts = true ∧
+    GroupClosed P n t g sb.ts (sb :: (t1 ++ sc :: t2)) grp rest)
+
 end PromVerif.Spec.OMRules
